@@ -91,8 +91,8 @@ func plan(prop, tier string, ncpu int, budgetOverride float64) *propPlan {
 		}
 		return thorough
 	}
-	commonReal := []string{"every line of v5/*.go, v5/internal/json/*.go and the legacy patch.go/merge.go/errors.go, compiled from the working tree after the semantics-preserving rewrites R1-R4", "sync.Map", "Go runtime and standard library"}
-	commonStub := []string{"sync.Pool -> simrt.Pool (fresh/LIFO/FIFO/arbitrary/adversarial reuse, eviction)", "sync.WaitGroup/Mutex/RWMutex/Once -> simrt shims with simulated blocking", "order of `range` over maps -> simrt.Keys (sorted/reversed/rotated/permuted)", "choice of which caller goroutine runs -> seeded cooperative scheduler"}
+	commonReal := []string{"every line of v5/*.go, v5/internal/json/*.go and the legacy patch.go/merge.go/errors.go, compiled from the working tree after the semantics-preserving rewrites R1-R7", "sync.Map", "Go runtime and standard library"}
+	commonStub := []string{"sync.Pool -> simrt.Pool (fresh/LIFO/FIFO/arbitrary/adversarial reuse, eviction)", "sync.WaitGroup/Mutex/RWMutex/Once/Cond -> simrt shims with simulated blocking", "go statements, channel operations and select of library code -> child tasks, simulated channels and simrt.Select (none in the unchanged tree)", "order of `range` over maps -> simrt.Keys (sorted/reversed/rotated/permuted)", "choice of which caller goroutine runs -> seeded cooperative scheduler"}
 	switch prop {
 	case "C09":
 		return &propPlan{level: "exploration", real: commonReal, stub: commonStub,
